@@ -148,6 +148,38 @@ pub fn op_apply_raw(job: &J) -> Result<J, String> {
     })
 }
 
+/// Evaluate a compiled program (hex of CBOR-wrapped flat) applied to Data arguments.
+pub fn op_eval_hex(job: &J) -> Result<J, String> {
+    use uplc::ast::{DeBruijn, NamedDeBruijn, Program, Term};
+    use uplc::machine::cost_model::ExBudget;
+    let hx = job["hex"].as_str().ok_or("hex")?;
+    let mut b1 = Vec::new();
+    let mut b2 = Vec::new();
+    let program = Program::<DeBruijn>::from_hex(hx, &mut b1, &mut b2).map_err(|e| format!("from_hex: {e}"))?;
+    let language = crate::util::lang_of(job["lang"].as_str().unwrap_or("v3"))?;
+    let mut out = vec![];
+    for argset in job["argsets"].as_array().cloned().unwrap_or_default() {
+        let mut p = program.clone();
+        for a in argset.as_array().cloned().unwrap_or_default() {
+            p = p.apply_data(tj::data_from_json(&a)?);
+        }
+        let nd: Program<NamedDeBruijn> = p.into();
+        let r = guarded(|| nd.eval_version(ExBudget::max(), &language));
+        out.push(match r {
+            Err(pn) => json!({"panic": pn}),
+            Ok(res) => {
+                let failed = res.failed(true, &language);
+                match &res.result {
+                    Ok(Term::Constant(c)) => json!({"ok": tj::constant_to_json(c), "failed": failed}),
+                    Ok(t) => json!({"ok": {"k": variant_name(&format!("{t:?}"))}, "failed": failed}),
+                    Err(e) => json!({"err": variant_name(&format!("{e:?}")), "failed": failed}),
+                }
+            }
+        });
+    }
+    Ok(json!({"results": out, "tree": if job["tree"].as_bool().unwrap_or(false) { tj::term_to_json(&program.term) } else { J::Null }}))
+}
+
 /// C20: untrusted JSON / TOML into the blueprint and config loaders.
 pub fn op_json_load(job: &J) -> Result<J, String> {
     let text = job["text"].as_str().ok_or("text")?;
